@@ -40,7 +40,8 @@ class C05Struct(Scenario):
                   "style": rng.choice(STYLES), "stale": rng.chance(1, 3), "variant": rng.below(3),
                   "load_style": rng.choice(STYLES + ("link", "link")), "mmap": rng.chance(1, 4),
                   "cwd_gone": rng.chance(1, 8),
-                  "chdir": rng.choice(seams.Scratch.DIRS) if rng.chance(1, 3) else None}
+                  "chdir": rng.choice(seams.Scratch.DIRS) if rng.chance(1, 3) else None,
+                  "reuse": rng.chance(1, 3), "frozen": rng.chance(1, 2)}
             if ff:
                 st.update({"chan": "bytes" if "bytes" in chans else chans[0], "dir": "a", "style": "abs", "stale": False,
                            "chdir": None})
@@ -113,6 +114,16 @@ class C05Struct(Scenario):
         # (a) all channels carry the same payload
         payloads = {}
         where = (step["dir"], self.env.fresh_name(sub.ext))
+        prev = getattr(self, "prev_where", None)
+        reuse = bool(step.get("reuse")) and prev is not None and not step["stale"] and "path" in sub.channels
+        if reuse:
+            # checkpointing: the destination still holds an EARLIER export of this object (usually the same size); with
+            # the file clock frozen its timestamp cannot be told from that of anything written since
+            where = prev
+            ctx.fault("dest_holds_earlier_export")
+            if step.get("frozen"):
+                scr.clock.freeze()
+                ctx.fault("clock_frozen")
         for c in sub.channels:
             if c == "path":
                 if step["stale"]:
@@ -123,6 +134,8 @@ class C05Struct(Scenario):
                 payloads[c] = sub.export("path", where, step["style"])
             else:
                 payloads[c] = sub.export(c)
+        scr.clock.thaw()
+        self.prev_where = where if "path" in sub.channels else None
         if sub.name != "BloomFilterOnDisk" and step.get("mmap"):
             try:
                 payloads["mmap"] = sub.export("mmap")
@@ -197,6 +210,8 @@ class C05Struct(Scenario):
         sub.obj = g
         if hasattr(old, "close") and sub.name == "BloomFilterOnDisk":
             old.close()
+            if chan == "path":
+                self.prev_where = None  # that file is the live backing file now, not an earlier export
         ctx.state(sub.name, chan, step["style"])
         return {"r": "ok", "n": obs0["count"]}
 
